@@ -1938,6 +1938,9 @@ def analyse_positive(ctx, want_props):
                 if p != {"C18"} and d["kind"] == "struct" and d.get("family") == "MISC" and d["name"].startswith(("Unit", "Empty")):
                     # field-less types written in every form: what remains of such a type is exactly C06's subject
                     p2.add("C06")
+                if p != {"C18"} and d.get("mod") == "misc_okctx" and d["kind"] == "struct" and d.get("default") is not None:
+                    # next to user items called Ok / Err: a declared default that stops compiling there is C06's loss
+                    p2.add("C06")
                 if p != {"C18"} and d.get("mod") == "misc_corectx":
                     # these witnesses sit next to a user item called `core`: failing there means the expansion names
                     # something that is not ::core (C18); for a `debug` struct it is the Debug impl that is lost (C19)
